@@ -43,7 +43,9 @@ Print Assumptions C12_concat_partial.
 
 (* Trivia. A layout (TriviaProofs.lay) spells a value with explicit trivia at
    every boundary: before each list or vector element, around the dot of a
-   dotted tail, before the closing parenthesis; its leaves are printed values.
+   dotted tail, before the closing parenthesis, and - for a byte vector
+   (LBytes) - between "#u8" and its parenthesis, before every octet and before
+   the closing parenthesis; its other leaves are printed values.
    trivia = any sequence of space, LF, tab, CR, FF and ";...LF" comments;
    trivia_eof additionally allows a last comment cut off by the end of input.
    lok asks only that consecutive elements are set off from each other (by
@@ -119,6 +121,44 @@ Proof.
       end. }
   split; [vm_compute; repeat constructor|]. split; [vm_compute; reflexivity|]. split; [reflexivity|].
   intros k; destruct k; vm_compute; reflexivity.
+Qed.
+
+(* trivia between the octets of a byte vector, inside a list:
+   "(x #u8 ;c<LF>(<TAB>1<CR><LF>20 ;d<LF> 255<FF>) y)" reads as (x #u8(1 20 255) y) *)
+Definition c12_bytes_layout : lay :=
+  LSeq false
+    (BItem [] (LAtom (Symbol (s2b "x")))
+    (BItem [32] (LBytes (s2b " ;c" ++ [10]) [([9], 1); ([13; 10], 20); (s2b " ;d" ++ [10; 32], 255)] [12])
+    (BItem [32] (LAtom (Symbol (s2b "y")))
+    (BEnd [])))).
+Example C12_trivia_bytes_nonvacuous :
+  lok (fun _ => []) (fun _ => true) c12_bytes_layout /\ (ldepth c12_bytes_layout <= 127)%nat /\
+  lval c12_bytes_layout = build [Symbol (s2b "x"); Bytes [1; 20; 255]; Symbol (s2b "y")] Null /\
+  ltxt (fun _ => []) c12_bytes_layout =
+    s2b "(x #u8 ;c" ++ [10] ++ s2b "(" ++ [9] ++ s2b "1" ++ [13; 10] ++ s2b "20 ;d" ++ [10] ++ s2b " 255" ++ [12] ++ s2b ") y)" /\
+  forall k, from_trait default_ro (fun _ => true) true dec_to_f64 k
+              (bytes_events (ltxt (fun _ => []) c12_bytes_layout)) = POk (lval c12_bytes_layout).
+Proof.
+  split; [|split; [vm_compute; repeat constructor|split; [reflexivity|split; [vm_compute; reflexivity|]]]].
+  2:{ intros k; destruct k; vm_compute; reflexivity. }
+  assert (Hsym : forall c, is_ascii_alpha c = true -> rt_ok (fun _ => true) (Symbol [c])).
+  { intros c Hc. cbn [rt_ok]. unfold plain_symbol, ScanProofs.no_terminator, ScanProofs.symbol_ok.
+    repeat split.
+    - constructor; [|constructor]. unfold is_ascii_alpha, is_ascii_lower, is_ascii_upper, in_range in Hc.
+      unfold is_symbol_terminator, memb. cbn [existsb]. lia.
+    - unfold is_ascii_alpha, is_ascii_lower, is_ascii_upper, in_range in Hc. cbn. destruct (c =? 46) eqn:E; [lia|reflexivity].
+    - unfold is_ascii_alpha, is_ascii_lower, is_ascii_upper, in_range in Hc. cbn [Utf8.utf8_valid].
+      unfold Utf8.utf8_valid. cbn. assert (E : (c <? 128) = true) by lia. rewrite E. reflexivity.
+    - left; left; exact Hc. }
+  cbn [c12_bytes_layout lok bok BytesLayout.olay_ok].
+  repeat match goal with
+         | |- _ /\ _ => split
+         | |- trivia _ => apply is_trivia_ok; reflexivity
+         | |- rt_ok _ (Symbol _) => apply Hsym; reflexivity
+         | |- _ \/ _ => first [left; reflexivity | right; first [discriminate | reflexivity]]
+         | |- _ < _ => reflexivity
+         | |- True => exact I
+         end.
 Qed.
 
 (* the printer's own text is the layout with no extra trivia *)
